@@ -201,6 +201,10 @@ def conv_items(tier):
 
 def check_conv(item, ctx):
     import verif.util
+    if "date" in item:
+        dd = item["date"]
+        day0 = model.days_from_civil(dd // 10000, dd // 100 % 100, dd % 100)
+        item = {"from": day0, "to": day0}
     for day in range(item["from"], item["to"] + 1):
         y, m, d = model.civil_from_days(day)
         date = y * 10000 + m * 100 + d
